@@ -71,15 +71,16 @@ Theorem C14_query_chain : forall x o, wf_bytes (stringify x) ->
 Proof. exact query_chain_confined. Qed.
 Print Assumptions C14_query_chain.
 
-(* after a TrustedResourceURL prefix: additionally the data has no dot-dot (triplets counted) and
-   what the browser decodes has no '/' and no '\' *)
+(* after a TrustedResourceURL prefix: additionally the data has no dot-dot (for the code's pattern
+   and in the specification's reading, triplets for '.' counted) and what the browser decodes has
+   no '/' and no backslash *)
 Theorem C14_tru_confined : forall x o, wf_bytes (stringify x) ->
   apply_chain [N_validateTRUSubst; N_queryEscapeURL; N_sanitizeHTML] x = Some o ->
-  contains_double_dot (stringify x) = false /\
+  contains_double_dot (stringify x) = false /\ spec_dotdot (stringify x) = false /\
   o = query_escape_url (stringify x) /\ html_unescape o = query_escape_url (stringify x) /\
   unreserved_or_pct (html_unescape o) = true /\ pct_decode (html_unescape o) = stringify x /\
   ~ In 47 (html_unescape o) /\ ~ In 92 (html_unescape o).
-Proof. exact tru_confined. Qed.
+Proof. exact tru_confined_all. Qed.
 Print Assumptions C14_tru_confined.
 
 (* across the boundary between prefix and data the directory can still be left (finding D10):
@@ -111,14 +112,19 @@ Theorem C14_normalized_chain : forall x o, wf_bytes (stringify x) ->
 Proof. exact normalize_chain_decoded. Qed.
 Print Assumptions C14_normalized_chain.
 
-(* rejected prefixes *)
+(* rejected prefixes, by both validators *)
 Theorem C14_prefix_rejected : forall p : bytes,
   (has_ws_or_ctrl p = true \/ has_ws_or_ctrl (html_unescape p) = true \/
    ends_with_partial_charref p = true \/ ends_with_partial_pct (html_unescape p) = true ->
    decode_url_prefix p = None /\ validate_url_prefix p = false /\ validate_tru_prefix p = false) /\
-  (could_complete_to_scheme (html_unescape p) = true -> validate_url_prefix p = false).
-Proof. exact prefix_rejected. Qed.
+  (could_complete_to_scheme (html_unescape p) = true -> validate_url_prefix p = false /\ validate_tru_prefix p = false).
+Proof. exact prefix_rejected_both. Qed.
 Print Assumptions C14_prefix_rejected.
+
+(* the rejection clause exactly as the oracle evaluates it on the implementation *)
+Theorem C14_must_reject : forall p : bytes, must_reject html_unescape p = true -> validate_url_prefix p = false.
+Proof. exact must_reject_rejected. Qed.
+Print Assumptions C14_must_reject.
 
 (* an accepted prefix fixes the scheme the WHATWG URL parser finds, whatever normalised bytes follow *)
 Theorem C14_prefix_scheme_fixed : forall p : bytes, validate_url_prefix p = true ->
@@ -130,7 +136,5 @@ Print Assumptions C14_prefix_scheme_fixed.
 Theorem C14_prefix_scheme_fixed_outputs : forall p v : bytes, validate_url_prefix p = true -> wf_bytes v ->
   whatwg_scheme (decode_runes (html_unescape p ++ normalize_url v)) = whatwg_scheme (decode_runes (html_unescape p)) /\
   whatwg_scheme (decode_runes (html_unescape p ++ query_escape_url v)) = whatwg_scheme (decode_runes (html_unescape p)).
-Proof.
-  intros p v H Hv. split; [apply prefix_scheme_fixed_normalized | apply prefix_scheme_fixed_escaped]; assumption.
-Qed.
+Proof. exact prefix_scheme_fixed_outputs. Qed.
 Print Assumptions C14_prefix_scheme_fixed_outputs.
